@@ -162,11 +162,14 @@ fn gen_coll(rng: &mut Rng, kind: &str, size: &str) -> Scenario {
     if kind == "mb" {
         sc.ctor = "from_iter".into();
     }
+    if !bounded && sc.ctor == "from_iter" && rng.pct(50) {
+        sc.ctor = "from_iter_lazy".into();
+    }
     if !bounded && sc.ctor == "with_capacity" && !real {
         sc.cap = 1 + rng.below(3) as usize;
     }
     let mut next: u32 = 1;
-    if sc.ctor == "from_iter" {
+    if sc.ctor.starts_with("from_iter") {
         let k = if bounded { sc.cap as u32 } else { rng.below(nchild as u64 + 1) as u32 };
         let k = k.min(if real { 400 } else { 6 });
         for _ in 0..k {
@@ -306,8 +309,16 @@ fn gen_starve(rng: &mut Rng, kind: &str, size: &str) -> Scenario {
     let mut sc = Scenario { kind: kind.into(), ctor: "with_capacity".into(), ..Default::default() };
     let stream = is_stream_kind(kind);
     let bounded = matches!(kind, "fub" | "fob" | "mb");
-    sc.cap = if real { rng.pick(&[2usize, 32, 33, 64, 100]) } else { 1 + rng.below(3) as usize };
-    let busy: u32 = if real { rng.pick(&[1u32, 2, 31, 32, 33, 40, 70, 100]) } else { 1 + rng.below(4) as u32 };
+    sc.cap = if real { rng.pick(&[2usize, 32, 33, 64, 100, 130]) } else { 1 + rng.below(3) as usize };
+    // populations below, at and above the group boundaries and the multiples of the per-poll budget (61)
+    // (cycled, not drawn: every population is exercised once every 17 runs)
+    static NEXT: std::sync::atomic::AtomicUsize = std::sync::atomic::AtomicUsize::new(0);
+    let pops = [61u32, 123, 1, 2, 31, 32, 33, 40, 59, 60, 62, 63, 70, 100, 121, 122, 124];
+    let busy: u32 = if real {
+        pops[NEXT.fetch_add(1, std::sync::atomic::Ordering::Relaxed) % pops.len()]
+    } else {
+        1 + rng.below(4) as u32
+    };
     let busy = if bounded { busy.min(sc.cap.saturating_sub(1) as u32).max(1) } else { busy };
     if bounded {
         sc.cap = sc.cap.max(busy as usize + 1);
